@@ -13,12 +13,18 @@ CLAIMED = {
              "callee or the caller's own lock held across), sound for all paths (phasesOk_sound), with atomic_shape / "
              "certified_call_is_wellLocked_op: every complete call of a function with both certificates is an operation "
              "pre*; acquire; body*; release; post* satisfying the hypothesis of wellLocked_linearizable; "
-             "macro_skeleton_as_modelled ties the Q_MUTEX_* transcription to the current qinternal.h.  Search/K-corr: "
+             "the Q_MUTEX_ENTER/LEAVE macros of the current source are extracted as statement trees (clang AST of the "
+             "expansion, macro-local names abstracted) with obligation macro_tree_as_modelled, and enter_returns_holding "
+             "(small-step semantics with an arbitrary environment move before every shared access: every terminating ENTER "
+             "ends with the mutex held one level deeper by the caller after exactly one successful acquisition - mutual "
+             "exclusion cannot be bypassed by a time-out path), leave_unlocks_once, all_container_mutexes_recursive.  "
+             "Search/K-corr: "
              "deterministic baton scheduler on wrapped pthread_mutex_trylock/unlock, all schedules of ~130 small client "
              "programs (2-3 threads; raw, size-limited, unique-key and str/int convenience operations such as "
              "popint||popint, popint||push, popint||clear, popstr||popstr, getint||putint) checked for linearizability "
-             "against ideal containers; long-hold scenario (lock held across 1-3 waiter time-outs: snapshot and mutual "
-             "exclusion must survive the forced-unlock path); thorough: TSan free-running stress.",
+             "against ideal containers; hold scenarios on the real code (lock held across 1-3 waiter time-outs; nested "
+             "locking calls by the holder while a second thread tries to get in; short contention followed by a third "
+             "thread): two locked walks identical, nobody gets in while the lock is held; thorough: TSan free-running stress.",
         note="trusted: Lean kernel, the lock-skeleton translator + clang-14 AST (cross-checked by C14's trace validation), "
              "pthread mutual exclusion, that the C critical-section bodies behave like the sequential models (C01-C10), "
              "node-memory race freedom only sampled by TSan; getnext cursor steps are covered by lockedWalk_snapshot under the "
@@ -31,12 +37,17 @@ CLAIMED = {
              "negative) + one kernel-checked certificate bal_<fn> per public function (159) of qtreetbl, qhashtbl, qlisttbl, "
              "qlist/qqueue/qstack/qgrow, qvector, qlog over skeletons regenerated from the current source on every run "
              "(every syntactic path: error returns and allocation-failure branches included) + enter_leave_model for the "
-             "Q_MUTEX_ENTER/LEAVE macros, tied to the current qinternal.h by macro_skeleton_as_modelled (token lists "
-             "regenerated by translator/mutexmacros.py).  Search/K-corr: every public function x every outcome class x every "
+             "Q_MUTEX_ENTER/LEAVE macros; the macros of the current qinternal.h are extracted as statement trees "
+             "(translator/mutexmacros.py, clang AST) and must equal the modelled trees (macro_tree_as_modelled), about "
+             "which enter_returns_holding / leave_unlocks_once are proved for every behaviour of the other threads "
+             "(exactly one acquisition per ENTER, exactly one unlock and no other observable effect per LEAVE), plus "
+             "macro_tree_shape, macro_skeleton_as_modelled (NEW/DESTROY/MAX fingerprint), all_container_mutexes_recursive.  "
+             "Search/K-corr: every public function x every outcome class x every "
              "allocation-failure position on thread-safe containers with wrapped pthread_mutex_*/malloc family: lockdelta "
              "must be 0, a second thread must get in afterwards, every observed trace must be a path of the skeleton; "
-             "long-hold scenario (owner keeps the lock across 1-3 waiter time-outs of Q_MUTEX_ENTER: owner depth back to 0, "
-             "waiter completes, probe gets in).",
+             "hold scenarios (owner keeps the lock across 1-3 waiter time-outs; nested locking public calls by the holder "
+             "must leave the REAL mutex depth unchanged; short contention then a third thread): owner depth back to 0, "
+             "waiter completes at depth 0, probe gets in.",
         note="trusted: Lean kernel, translator/lockcfg.py + clang-14 AST + the analysis-only shim for the Q_MUTEX_* macros "
              "(validated by the run-time traces), pthread recursive mutex semantics; calls that crash under allocation failure "
              "(defects of C15) do not return and are recorded, not judged.",
